@@ -166,7 +166,10 @@ class Machine:
         b = frame["def"]
         sub = st[1] if k in ("do", "dofor", "dountil") else None
         if k == "do":
-            yield from self.behavior(sub)
+            if frame.get("scn"):
+                yield from self.run_scenarios(sub, frame, [])
+            else:
+                yield from self.behavior(sub)
             self.check_inv(b)  # resumed after a sub-behavior terminates
             return
         if k in ("waitfor", "dofor"):
@@ -178,15 +181,19 @@ class Machine:
             c = st[1] if k == "waituntil" else st[2]
             done = lambda: bool(self.cond(c))
         gen = None
+        group = []
         while True:
             if done():
-                break  # the sub-behavior (if any) is stopped; continue in the same step
+                # the sub-behavior / sub-scenarios (if any) are stopped; continue in the same step
+                for inst in group:
+                    self.scn_stop(inst)
+                break
             if sub is None:
                 yield ("act", (), frame["id"])
                 self.check_inv(b)
                 continue
             if gen is None:
-                gen = self.behavior(sub)
+                gen = self.run_scenarios(sub, frame, group) if frame.get("scn") else self.behavior(sub)
             try:
                 y = next(gen)
             except StopIteration:
@@ -228,6 +235,93 @@ class Machine:
                 remaining.remove((name, w))
                 yield from self.behavior(name)
         self.check_inv(b)
+
+    # -- modular scenarios ---------------------------------------------------------------
+    def scn_start(self, name, top=False):
+        d = self.prog["scenarios"][name]
+        self.check_pre(d)
+        self.check_inv(d)
+        self.instances += 1
+        inst = {"name": name, "def": d, "id": self.instances, "elapsed": 0, "running": True, "subs": [], "scn": True}
+        inst["limit"] = self.steps_of(*d["terminate_after"]) if d.get("terminate_after") is not None else None
+        if not top:
+            self.ev(f"{name}.setup")  # (the main scenario's setup block ran at compile time)
+        inst["gen"] = self.block(d["compose"], inst, name) if d.get("compose") is not None else None
+        inst["has_compose"] = d.get("compose") is not None
+        return inst
+
+    def scn_stop(self, inst):
+        if not inst["running"]:
+            return
+        inst["running"] = False
+        for sub in inst["subs"]:
+            self.scn_stop(sub)  # first recursively stop any sub-scenarios it is running
+        inst["gen"] = None
+
+    def scn_step(self, inst):
+        """One time step of a running scenario (reference procedure, step 1).
+        Returns None (keeps running), "stopped", or "termsim"."""
+        if "subscenario_tw_is_requirement" in self.variant and inst["name"] != self.prog.get("main"):
+            # variant used only to attribute a known finding: `terminate when C` executed in the
+            # setup block of a sub-scenario at run time is registered as a requirement on C
+            for c in inst["def"].get("terminate_when", ()):
+                if not self.cond(c):
+                    raise Reject()
+        if inst["limit"] is not None and inst["elapsed"] >= inst["limit"]:
+            self.scn_stop(inst)
+            return "stopped"
+        inst["elapsed"] += 1
+        if inst["has_compose"]:
+            done = False
+            if inst["gen"] is None:
+                done = True
+            else:
+                try:
+                    y = next(inst["gen"])
+                    if y[0] == "terminate":
+                        self.scn_stop(inst)
+                        return "stopped"
+                    if y[0] == "termsim":
+                        self.scn_stop(inst)
+                        return "termsim"
+                except StopIteration:
+                    inst["gen"] = None
+                    done = True
+            if done:
+                self.scn_stop(inst)
+                return "stopped"
+        if not ("subscenario_tw_is_requirement" in self.variant and inst["name"] != self.prog.get("main")):
+            for c in inst["def"].get("terminate_when", ()):
+                if self.cond(c):
+                    self.scn_stop(inst)
+                    return "stopped"
+        return None
+
+    def run_scenarios(self, names, frame, group):
+        """`do A(), B()` in a compose block: run sub-scenarios in parallel until all end."""
+        if isinstance(names, str):
+            names = [names]
+        insts = []
+        for n in names:
+            inst = self.scn_start(n)
+            insts.append(inst)
+            group.append(inst)
+            frame["subs"].append(inst)
+        while True:
+            new = []
+            for inst in insts:
+                if not inst["running"]:
+                    continue
+                r = self.scn_step(inst)
+                if r == "termsim":
+                    yield ("termsim",)
+                elif r is None:
+                    new.append(inst)
+            insts = new
+            if not insts:
+                return
+            yield ("act", (), -1)
+            insts = [i for i in insts if i["running"]]
 
     def try_stmt(self, body, handlers, frame, path):
         b = frame["def"]
@@ -293,13 +387,20 @@ class Machine:
         if top.get("terminate_after") is not None:
             limit = self.steps_of(*top["terminate_after"])
         elapsed = 0
+        main = None
+        if prog.get("main"):
+            main = self.scn_start(prog["main"], top=True)
         max_steps = prog.get("maxSteps")
         n_actions = 0
         finished = set()
         while True:
             flag = None  # set of allowed termination types once the simulation must stop
             # 1. the (top-level) scenario
-            if limit is not None and elapsed >= limit:
+            if main is not None:
+                r = self.scn_step(main)
+                if r is not None:
+                    flag = {"scenarioComplete"}
+            elif limit is not None and elapsed >= limit:
                 flag = {"scenarioComplete"}
             else:
                 elapsed += 1
